@@ -39,14 +39,68 @@ class Classes:
             raise common.Infra(f"driver table mismatch: {r} vs {len(self.keys)} {self.digest}")
 
 
-def choose_classes(n_total: int, rng: random.Random, count: int | None, seed: int):
-    """seed-rotated subset; every class is hit once per ceil(n/count) seeds"""
+def class_atoms(cls) -> set:
+    """structural features of a class: one atom per (field shape, Kafka type / leaf, tagged,
+    nullable, array-nullable, explicit default, flexible).  Classes are near-copies of one another
+    across versions; a mechanism that only one field shape exercises lives in one or two classes."""
+    import dataclasses
+    import types
+    import typing
+
+    atoms = set()
+    hints = typing.get_type_hints(cls)
+    for f in dataclasses.fields(cls):
+        tp = hints[f.name]
+        opt = arr = arr_opt = False
+        if typing.get_origin(tp) in (types.UnionType, typing.Union):
+            opt = True
+            tp = [a for a in typing.get_args(tp) if a is not type(None)][0]
+        if typing.get_origin(tp) is tuple:
+            arr, arr_opt, opt = True, opt, False
+            tp = typing.get_args(tp)[0]
+            if typing.get_origin(tp) in (types.UnionType, typing.Union):
+                opt = True
+                tp = [a for a in typing.get_args(tp) if a is not type(None)][0]
+        leaf = "entity" if dataclasses.is_dataclass(tp) else f.metadata.get("kafka_type", getattr(tp, "__name__", str(tp)))
+        dflt = "missing" if f.default is dataclasses.MISSING else ("none" if f.default is None else "value")
+        atoms.add((arr, leaf, "tag" in f.metadata, opt, arr_opt, dflt, bool(cls.__flexible__)))
+    atoms.add(("kind", cls.__type__.name, bool(cls.__flexible__), len(dataclasses.fields(cls)) == 0))
+    return atoms
+
+
+_ATOM_INDEX = {}
+
+
+def choose_classes(n_total: int, rng: random.Random, count: int | None, seed: int, classes: "Classes | None" = None,
+                   per_atom: int = 3):
+    """seed-rotated subset; every class is hit once per ceil(n/count) seeds.  With `classes`, the
+    subset first takes, for every structural atom, `per_atom` classes having it (all of them when
+    the atom is rare), so that rare field shapes are exercised on every run."""
     idx = list(range(n_total))
     if count is None or count >= n_total:
         return idx
     random.Random(12345).shuffle(idx)       # fixed permutation, rotated by the seed
     start = (seed * count) % n_total
-    return sorted((idx + idx)[start : start + count])
+    rot = (idx + idx)[start : start + count]
+    if classes is None:
+        return sorted(rot)
+    if "by_atom" not in _ATOM_INDEX:
+        by_atom = {}
+        for i in range(n_total):
+            for a in class_atoms(classes.cls(i)):
+                by_atom.setdefault(a, []).append(i)
+        _ATOM_INDEX["by_atom"] = by_atom
+    must = set()
+    for a, members in sorted(_ATOM_INDEX["by_atom"].items(), key=repr):
+        k = (seed * per_atom) % len(members)
+        must.update((members + members)[k : k + per_atom] if len(members) > per_atom else members)
+    out = list(must)
+    for i in rot:
+        if len(out) >= max(count, len(must)):
+            break
+        if i not in must:
+            out.append(i)
+    return sorted(out)
 
 
 def encode_real(cls, obj) -> str:
